@@ -39,6 +39,8 @@ pub enum T1 {
     FnLit(Ty, Vec<(Vec<Vec<T1>>, Option<Vec<Vec<T1>>>)>, Vec<String>),
     /// the callable variable applied to the flowing value
     Call(String),
+    /// a nilary callable variable in a chain (called with nil, the flowing value is ignored)
+    CallNil(String),
 }
 
 #[derive(Clone, Debug, PartialEq)]
@@ -54,6 +56,8 @@ pub enum Ty {
     Any,
     /// a function value with this parameter type (never nil: nilary calls are compiled differently)
     Fn(Box<Ty>),
+    /// a nilary function value
+    FnNil,
 }
 
 impl Ty {
@@ -76,8 +80,8 @@ pub struct Gen<'a> {
     pub blocks: bool,
     /// generate function literals (at the top level of the entry sequence) and calls
     pub fns: bool,
-    /// inside a function body (no further function literals)
-    pub in_body: bool,
+    /// nesting depth of function bodies being generated (literals nest at most twice)
+    pub body_depth: u32,
 }
 
 impl<'a> Gen<'a> {
@@ -149,7 +153,7 @@ impl<'a> Gen<'a> {
                 None => (self.int(), Ty::Int),
             },
             3 | 4 => {
-                let data: Vec<(String, Ty)> = self.env.iter().filter(|(_, t)| !matches!(t, Ty::Fn(_))).cloned().collect();
+                let data: Vec<(String, Ty)> = self.env.iter().filter(|(_, t)| !matches!(t, Ty::Fn(_) | Ty::FnNil)).cloned().collect();
                 if data.is_empty() {
                     (self.int(), Ty::Int)
                 } else {
@@ -237,6 +241,23 @@ impl<'a> Gen<'a> {
                 return (out, ty);
             }
         }
+        let nvars: Vec<String> = self.env.iter().filter(|(_, t)| matches!(t, Ty::FnNil)).map(|(n, _)| n.clone()).collect();
+        if self.fns && !nvars.is_empty() && flow.is_some() && self.r.chance(1, 4) {
+            // `… g` with a nilary `g`
+            let g = nvars[self.r.usize(nvars.len())].clone();
+            let mut out = vec![];
+            let before = if self.r.chance(1, 2) {
+                let (t, ty) = self.term(flow, depth);
+                out.push(t);
+                ty
+            } else {
+                out.push(T1::Ripple);
+                flow.cloned().unwrap_or(Ty::Any)
+            };
+            // a flowing value that is statically nil already IS the argument: plain `Load, Call`
+            out.push(if before.is_static_nil() { T1::Call(g) } else { T1::CallNil(g) });
+            return (out, Ty::Any);
+        }
         let n = 1 + self.r.usize(if depth == 0 { 2 } else { 3 });
         let mut out = vec![];
         let mut cur: Option<Ty> = flow.cloned();
@@ -261,16 +282,17 @@ impl<'a> Gen<'a> {
         let mut flow: Option<Ty> = start.cloned();
         let mut last = Ty::Int;
         for _ in 0..n {
-            if self.fns && !self.in_body && start.is_none() && self.r.chance(1, 3) {
-                // `#P { … } =f` as a whole step
-                let p = match self.r.below(3) {
+            if self.fns && self.body_depth < 2 && (start.is_none() || self.body_depth > 0) && self.r.chance(1, 3) {
+                // `#P { … } =f` as a whole step (at the top level, or — nested — as a step of a body)
+                let p = match self.r.below(4) {
                     0 => Ty::Tup(None, vec![Ty::Int, Ty::Int]),
                     1 => Ty::Tup(Some("A".into()), vec![Ty::Int]),
+                    2 => Ty::Tup(None, vec![]),
                     _ => Ty::Int,
                 };
                 let outer: Vec<String> = self.env.iter().map(|(n, _)| n.clone()).collect();
                 let mark = self.env.len();
-                self.in_body = true;
+                self.body_depth += 1;
                 let nb = 1 + self.r.usize(2);
                 let mut body = vec![];
                 for _ in 0..nb {
@@ -286,7 +308,7 @@ impl<'a> Gen<'a> {
                     self.env.truncate(m2);
                     body.push((cond, cons));
                 }
-                self.in_body = false;
+                self.body_depth -= 1;
                 self.env.truncate(mark);
                 let mut caps = vec![];
                 for (c, k) in &body {
@@ -297,7 +319,8 @@ impl<'a> Gen<'a> {
                 }
                 self.counter += 1;
                 let f = format!("f{}", self.counter);
-                self.env.push((f.clone(), Ty::Fn(Box::new(p.clone()))));
+                let fty = if p.is_static_nil() { Ty::FnNil } else { Ty::Fn(Box::new(p.clone())) };
+                self.env.push((f.clone(), fty));
                 out.push(vec![T1::FnLit(p, body, caps), T1::Match(Pat1::Top(Sub::Bind(f)))]);
                 last = Ty::Ok;
                 flow = Some(Ty::Ok);
@@ -329,7 +352,7 @@ fn free_seq(s: &[Vec<T1>], outer: &[String], out: &mut Vec<String>) {
 
 fn free_term(t: &T1, outer: &[String], out: &mut Vec<String>) {
     match t {
-        T1::Var(x) | T1::Call(x) => {
+        T1::Var(x) | T1::Call(x) | T1::CallNil(x) => {
             if outer.contains(x) && !out.contains(x) {
                 out.push(x.clone());
             }
@@ -355,6 +378,7 @@ fn free_term(t: &T1, outer: &[String], out: &mut Vec<String>) {
 
 fn src_ty(t: &Ty) -> String {
     match t {
+        Ty::Tup(None, fs) if fs.is_empty() => "[]".into(),
         Ty::Int => "'int".into(),
         Ty::Tup(n, fs) => format!("{}[{}]", n.clone().unwrap_or_default(), fs.iter().map(src_ty).collect::<Vec<_>>().join(", ")),
         _ => "'int".into(),
@@ -403,7 +427,7 @@ fn src_term(t: &T1) -> String {
             format!("{}[{}]", n.clone().unwrap_or_default(), fs.iter().map(|c| src_chain(c)).collect::<Vec<_>>().join(", "))
         }
         T1::FnLit(p, bs, _) => format!("#{} {{ {} }}", src_ty(p), src_branches(bs)),
-        T1::Call(x) => x.clone(),
+        T1::Call(x) | T1::CallNil(x) => x.clone(),
         T1::Block(bs) => {
             let parts: Vec<String> = bs
                 .iter()
@@ -529,6 +553,12 @@ fn sx_term(t: &T1, ids: &mut Ids, cx: &mut Sx) -> Option<String> {
         T1::Ripple => "(~)".into(),
         T1::Var(x) => format!("(v {x})"),
         T1::Call(x) => format!("(call {x})"),
+        T1::CallNil(x) => {
+            // the nil argument: `Tuple(NIL)` in the call sequence
+            let t0 = ids.next_tuple()?;
+            cx.checks.push(Check::Fixed(t0, 0));
+            format!("(callnil {x})")
+        }
         T1::FnLit(_, body, caps) => {
             let fi = ids.next_fun()?;
             cx.checks.push(Check::Captures(fi, caps.len()));
